@@ -66,3 +66,21 @@ try:
         print(r2.spec.defines_symbols)
 except RuntimeError as e:
     print('TypeDef          attaching on a unit with a TYPE definition raises:', e)
+
+# R5: WHERE / ELSEWHERE(mask) alternatives are chained
+wsrc = """
+subroutine w(n, m, m2, a, b)
+  integer, intent(in) :: n
+  logical, intent(in) :: m(n), m2(n)
+  real, intent(inout) :: a(n), b(n)
+  where (m)
+    a = 1.
+  elsewhere (m2)
+    b = a
+  end where
+end subroutine
+"""
+r3 = Subroutine.from_source(wsrc)
+with dataflow_analysis_attached(r3):
+    wn = FindNodes(ir.MaskedStatement).visit(r3.body)[0]
+    print('MaskedStatement  uses=', [str(s) for s in wn.uses_symbols], ' # a is read in ELSEWHERE(m2) where m is false: missing')
